@@ -81,6 +81,30 @@ pub fn run_job(job: &Job, engine: &dyn Engine) -> JobResult {
         .truncate(true)
         .open(&job.state_file)
         .ok();
+    // Heartbeat: a helper thread rewrites the state file once a second with
+    // the current index (and phase marker) plus the progress counter.
+    let cur = std::sync::Arc::new(std::sync::Mutex::new(String::new()));
+    let done = std::sync::Arc::new(std::sync::atomic::AtomicBool::new(false));
+    {
+        let cur = cur.clone();
+        let done = done.clone();
+        let path = job.state_file.clone();
+        std::thread::spawn(move || {
+            use std::os::unix::fs::FileExt;
+            let f = std::fs::OpenOptions::new().write(true).create(true).truncate(false).open(&path);
+            if let Ok(f) = f {
+                while !done.load(std::sync::atomic::Ordering::Relaxed) {
+                    std::thread::sleep(std::time::Duration::from_millis(500));
+                    let head = cur.lock().map(|g| g.clone()).unwrap_or_default();
+                    if head.is_empty() {
+                        continue;
+                    }
+                    let p = crate::engine::PROGRESS.load(std::sync::atomic::Ordering::Relaxed);
+                    let _ = f.write_all_at(format!("{} {:020}\n", head, p).as_bytes(), 0);
+                }
+            }
+        });
+    }
     for (pos, &index) in job.indices.iter().enumerate() {
         if job.soft_deadline_s > 0.0 && start.elapsed().as_secs_f64() > job.soft_deadline_s {
             res.not_run.extend_from_slice(&job.indices[pos..]);
@@ -88,7 +112,11 @@ pub fn run_job(job: &Job, engine: &dyn Engine) -> JobResult {
         }
         if let Some(f) = state.as_mut() {
             use std::os::unix::fs::FileExt;
-            let _ = f.write_all_at(format!("{:020}\n", index).as_bytes(), 0);
+            let head = format!("{:020} ", index);
+            let _ = f.write_all_at(format!("{} {:020}\n", head, 0).as_bytes(), 0);
+            if let Ok(mut g) = cur.lock() {
+                *g = head;
+            }
         }
         let run_seed = run_seed_for(job.base_seed, &job.engine, &job.property, index);
         let trace = engine.generate(run_seed, index, &job.property, job.thorough);
@@ -117,7 +145,11 @@ pub fn run_job(job: &Job, engine: &dyn Engine) -> JobResult {
             if let Some(f) = state.as_mut() {
                 use std::os::unix::fs::FileExt;
                 // Phase marker: a death from here on happened while shrinking.
-                let _ = f.write_all_at(format!("{:020}S", index).as_bytes(), 0);
+                let head = format!("{:020}S", index);
+                let _ = f.write_all_at(head.as_bytes(), 0);
+                if let Ok(mut g) = cur.lock() {
+                    *g = head;
+                }
             }
             let narrowed = engine.narrow(&trace, &ctx);
             let mut seen = std::collections::BTreeSet::new();
@@ -163,6 +195,7 @@ pub fn run_job(job: &Job, engine: &dyn Engine) -> JobResult {
             }
         }
     }
+    done.store(true, std::sync::atomic::Ordering::Relaxed);
     res.distinct = distinct.into_iter().collect();
     res.wall_s = start.elapsed().as_secs_f64();
     res
